@@ -936,7 +936,11 @@ func runC12(c *hc.Ctx) error {
 			v := hc.Violation{What: p.What, Input: k, Observed: p.Observed, Expected: p.Expected}
 			c.Violate(v)
 		}
-		if r.Obs.Err == "" && r.Obs.File.Err == "" {
+		if n > 1200 {
+			// a very long stream: decided by the oracle on the implementation only (a Coq term of tens of megabytes
+			// overflows coqc's stack); the model sees the bulk streams of up to 1200 rows
+			c.Count("bulk stream of more than 1200 rows: oracle only, no correspondence case")
+		} else if r.Obs.Err == "" && r.Obs.File.Err == "" {
 			c.Case(c12CoqCase(k, r.Obs), map[string]any{"case": k, "observed_counter_delta": r.Obs.C1 - r.Obs.C0})
 		}
 		if k.ID >= 1 && k.ID <= 3 {
